@@ -159,7 +159,8 @@ PH_RE = re.compile(r"ZQ~(\d+)~QZ")
 
 
 def markup():
-    return st.one_of(gen.any_text(), gen.hot_text(10), st.sampled_from(["<b>x</b>", "a\nb", "&amp;", "&", "</script>", '"', "<!-- c -->", "\r\n"]))
+    long_ = st.builds(lambda s, k: ((s or "<b>&amp;</b>") * k)[:300], gen.any_text(), st.integers(10, 40)).filter(lambda s: len(s) >= 64)
+    return st.one_of(gen.any_text(), gen.hot_text(10), st.sampled_from(["<b>x</b>", "a\nb", "&amp;", "&", "</script>", '"', "<!-- c -->", "\r\n"]), long_)
 
 
 def slot(kinds):
@@ -195,7 +196,7 @@ def vtree():
 
 
 def vcase():
-    return st.fixed_dictionaries({"roots": vtree(), "indent": st.integers(0, 3), "eol": st.sampled_from(["\n", "", "\r\n"])})
+    return st.fixed_dictionaries({"roots": vtree(), "indent": st.integers(0, 3), "eol": st.sampled_from(["\n", "", "\r\n"]), "prior": st.booleans()})
 
 
 class _B:
@@ -253,6 +254,13 @@ def body_verbatim(case, note):
     o0 = [b0.node(r) for r in case["roots"]]
     o1 = [b1.node(r) for r in case["roots"]]
     slots = b1.slots
+    if case.get("prior"):
+        # history: the same characters were rendered earlier in this process as *plain* text / attribute values
+        import htmltools as h
+
+        for m in slots:
+            h.Tag("p", m).get_html_string()
+            h.Tag("p", m, "x", title=m).get_html_string()
     for (label, r0), (_, r1) in zip(_renders(o0, case), _renders(o1, case)):
         found = [int(m.group(1)) for m in PH_RE.finditer(r0)]
         if label.startswith("TagList") or label.startswith("HTMLDocument"):
@@ -260,7 +268,7 @@ def body_verbatim(case, note):
         exp = PH_RE.sub(lambda m: slots[int(m.group(1))], r0)
         check(r1 == exp, f"{label}: trusted markup is not emitted byte-for-byte", exp, r1)
     nontriv = any((META | set("\n\r\"'")) & set(m) for m in slots) and len(slots) >= 2
-    note(nontriv, *["slot:" + k for k in sorted(b1.kinds)])
+    note(nontriv, *["slot:" + k for k in sorted(b1.kinds)], "prior-plain-render" if case.get("prior") else "", "long-markup" if any(len(m) >= 64 for m in slots) else "")
 
 
 def selftest():
@@ -293,7 +301,7 @@ CLAUSES = [
         quick=600,
         thorough=15000,
         shards_quick=4,
-        required=("slot:html", "slot:repr", "slot:rawtext", "slot:rawhtml", "slot:attr", "slot:attr-merge"),
+        required=("slot:html", "slot:repr", "slot:rawtext", "slot:rawhtml", "slot:attr", "slot:attr-merge", "prior-plain-render", "long-markup"),
         rule="see RULE",
     ),
 ]
